@@ -16,9 +16,9 @@ RULE = ('(1) EXHAUSTIVE packet-set semantics: over 4 adjacent addresses x ports 
         'responder installs, its answered TSi/TSr lie inside a proposed selector AND inside the policy, and the kernel selectors lie inside the policy; when no '
         'proposed pair has a packet in common with any policy entry OF THE MODE ASKED FOR, the answer is exactly TS_UNACCEPTABLE and nothing is installed (a policy whose entries have different modes is swept as a grid: entry x shape of the proposal x mode asked x position of the entry in the list; whatever is installed must have the mode of the entry its selectors lie in); (4) INITIATOR: an '
         'independent responder (valid AUTH) answers with selectors widened in address, port or protocol (TSi only, TSr only, both) or with the other mode: '
-        'nothing may be installed; honest narrowing must be installed; (5) a CHILD_SA rekey between two real endpoints installs selectors equal to the replaced '
+        'nothing may be installed; honest narrowing must be installed; (4b) the same on LATER exchanges of the IKE_SA: after an honestly completed CHILD_SA rekey the independent responder answers the request for a narrower policy entry, or a second rekey, with the earlier SA\'s / wider / narrower / disjoint selectors; (5) a CHILD_SA rekey between two real endpoints installs selectors equal to the replaced '
         'SA\'s; (5b) an independent initiator creates a CHILD_SA narrower than the policy and asks to rekey it with 12 selector variants (equal, wider in address / port / protocol but inside the policy, the whole policy, wider than it, narrower, disjoint, two-entry lists, one side only): whatever is installed has exactly the replaced SA\'s selectors, equal ones must be accepted, a refusal is TS_UNACCEPTABLE. distinct = case signatures.')
-ASSUMPTIONS = ['well-formed selectors only (start <= end)', 'for partially overlapping proposals either refusal or narrowing is accepted',
+ASSUMPTIONS = ['well-formed selectors only (start <= end)', 'a rekey ANSWER that narrows the selectors (still inside the offer) may be installed or refused by the initiator: the statement only forbids widened answers', 'for partially overlapping proposals either refusal or narrowing is accepted',
                'the kernel selector of a non-CIDR address range is the enclosing prefix and the one-port range 0-0 maps to the kernel wildcard (port 0 is the wildcard encoding): noted, not flagged']
 SHARDS = {'quick': 8, 'thorough': 16}
 TIMEOUT = {'quick': 600, 'thorough': 3400}
@@ -142,6 +142,10 @@ POLICIES = {
     'three-entries': [dict(my_subnet='10.2.0.0/16', peer_subnet='10.1.0.0/16', my_port=0, peer_port=0, ip_proto='any'),
                       dict(my_subnet='10.3.3.0/24', peer_subnet='10.1.7.0/24', my_port=443, peer_port=0, ip_proto='tcp'),
                       dict(my_subnet='10.4.0.0/30', peer_subnet='10.1.0.0/16', my_port=53, peer_port=53, ip_proto='udp')],
+    # an entry that relies on every default (the two gateways themselves, any protocol, any port) AFTER entries that spell everything out
+    'defaults-after-explicit': [dict(my_subnet='10.2.0.0/16', peer_subnet='10.1.0.0/16', my_port=443, peer_port=0, ip_proto='tcp', mode='tunnel'),
+                                dict(my_subnet='10.7.0.0/24', peer_subnet='10.8.0.0/24', my_port=53, peer_port=53, ip_proto='udp', mode='tunnel'),
+                                dict(my_subnet=None, peer_subnet=None, my_port=0, peer_port=0, ip_proto='any', mode='transport')],
     # entries with DIFFERENT modes and pairwise disjoint selectors: the mode asked for is judged against the entry whose selectors are answered
     'mixed-modes': [dict(my_subnet='10.2.0.0/25', peer_subnet='10.1.0.0/25', my_port=0, peer_port=0, ip_proto='any', mode='tunnel'),
                     dict(my_subnet='10.9.0.0/24', peer_subnet='10.8.0.0/24', my_port=80, peer_port=0, ip_proto='tcp', mode='transport'),
@@ -163,6 +167,10 @@ def make_responder(seed, pname, mode, rot=0):
             p['my_subnet'] = e['my_subnet']
         if e['peer_subnet']:
             p['peer_subnet'] = e['peer_subnet']
+        # what equals the documented default is left out, as a hand-written file would (each entry must get ITS defaults, whatever the entries before it say)
+        for key, default in (('my_port', 0), ('peer_port', 0), ('ip_proto', 'any'), ('mode', 'tunnel')):
+            if p.get(key) == default:
+                p.pop(key)
         prot.append(p)
     cb['conn']['protect'] = prot
     sim = S.Sim(seed)
@@ -237,7 +245,7 @@ def gen_ts_request(rng, pols, forced=None):
 
 
 def responder_case(ck, rng, i, forced=None):
-    pname = ('three-entries', 'single-host', 'mixed-modes')[i % 3] if i % 2 == 0 else 'three-entries' if i % 4 == 1 else 'mixed-modes'
+    pname = ('three-entries', 'single-host', 'mixed-modes')[i % 3] if i % 2 == 0 else 'three-entries' if i % 4 == 1 else ('mixed-modes', 'defaults-after-explicit')[(i // 4) % 2]
     mode = 'transport' if i % 3 else 'tunnel'
     if forced:
         pname = 'mixed-modes'
@@ -245,7 +253,7 @@ def responder_case(ck, rng, i, forced=None):
     pols = policy_selectors(pname)
     kind, tsi, tsr = gen_ts_request(rng, pols, forced)
     ask_transport = (mode == 'transport') if i % 7 else (mode != 'transport')
-    if pname == 'mixed-modes':
+    if pname in ('mixed-modes', 'defaults-after-explicit'):
         ask_transport = rng.random() < 0.5
     if forced:
         ask_transport = forced[2]
@@ -387,6 +395,93 @@ def initiator_case(ck, rng, vi):
     if not ok and inst:
         ck.violation(f"initiator-installed-a-response-that-{'changes-the-mode' if label == 'mode-flipped' else 'widens-or-swaps-the-selectors'}:{label.split('-')[0]}-{label.split('-')[-1]}",
                      {'label': label, 'tsi': ti, 'tsr': tr, 'newsa': inst}, sim.case)
+
+
+def later_generation_case(ck, rng, i):
+    """(4b) the initiator's check of the answered selectors on LATER exchanges of an IKE_SA: an independent responder (valid keys) lets a CHILD_SA be
+    created and rekeyed honestly, then answers the request for a CHILD_SA of a NARROWER policy entry (or a further rekey) with other selectors."""
+    variants = ['honest', 'selectors-of-the-earlier-wide-sa', 'whole-ipv4', 'tsi-wide-only', 'tsr-wide-only', 'rekey2-honest', 'rekey2-wider', 'rekey2-narrower', 'rekey2-disjoint']
+    variant = variants[i % len(variants)]
+    ca, cb = S.pair_conf(mode='tunnel', ip_proto='any', a_port=0, b_port=0, a_subnet='10.1.0.0/16', b_subnet='10.2.0.0/16', lifetime=3600, dpd=600)
+    narrow = dict(ca['conn']['protect'][0])
+    narrow.update(index=9, my_subnet='10.1.5.0/24', peer_subnet='10.2.5.0/24', ip_proto='tcp', peer_port=443)
+    ca['conn']['protect'].append(narrow)
+    sim = S.Sim(ck.seed * 29 + i)
+    a = sim.add('A', [S.A4], ca)
+    sim.case = {'family': 'initiator-later-generation', 'variant': variant}
+    p = party.RefParty(S.B4, S.A4, rng)
+    sim.acquire(a, 0)
+    sim.inject(a, S.B4, S.A4, p.respond_init(sim.net.pop(0).data))
+    areq = sim.net.pop(0).data
+    sim.inject(a, S.B4, S.A4, p.respond_auth(areq, c02.ID_B[0], c02.ID_B[1], 2, p.auth_psk(c02.PSK_B, *c02.ID_B)))
+    if not c02.established(a) or not a.ctl.ike_sas[0].child_sas:
+        ck.count('later.setup_failed')
+        return
+    sa = a.ctl.ike_sas[0]
+
+    def answer_child(ts=None):
+        """Answer the CREATE_CHILD_SA request in flight; ts = (tsi, tsr) to put on the wire instead of the request's own last selectors."""
+        req = sim.net.pop(0).data
+        hdr, inner, _i = p.open(req)
+        rsa = next(x for x in inner if x['type'] == codec.SA)
+        tsi = next(x for x in inner if x['type'] == codec.TSI)['selectors']
+        tsr = next(x for x in inner if x['type'] == codec.TSR)['selectors']
+        pr = rsa['proposals'][0]
+        chosen = {}
+        for t in pr['transforms']:
+            chosen.setdefault(t['type'], t)
+        pls = [{'type': codec.SA, 'critical': False, 'proposals': [{'num': pr['num'], 'proto': pr['proto'], 'spi': bytes(rng.randrange(256) for _ in range(4)),
+                                                                      'transforms': [chosen[k] for k in sorted(chosen) if k != 4]}]},
+               {'type': codec.NONCE, 'critical': False, 'data': bytes(rng.randrange(256) for _ in range(32))},
+               {'type': codec.TSI, 'critical': False, 'selectors': [ts[0] if ts else tsi[-1]]}, {'type': codec.TSR, 'critical': False, 'selectors': [ts[1] if ts else tsr[-1]]}]
+        n0 = c02.newsa_count(a)
+        sim.inject(a, S.B4, S.A4, p.seal(36, hdr['mid'], pls, True))
+        return c02.newsa_count(a) - n0, (tsi, tsr)
+
+    def answer_informational():
+        if sim.net:
+            hdr, inner, _i = p.open(sim.net.pop(0).data)
+            sim.inject(a, S.B4, S.A4, p.seal(37, hdr['mid'], [], True))
+    # honest first rekey of the wide CHILD_SA
+    c1 = sa.child_sas[0]
+    wide_i, wide_r = sel('10.1.0.0', '10.1.255.255', 0, 65535, 0), sel('10.2.0.0', '10.2.255.255', 0, 65535, 0)
+    sim.expire(a, bytes(c1.inbound_spi), False, daddr=S.A4)
+    inst, _ = answer_child()
+    answer_informational()          # the DELETE of the replaced SA
+    if inst != 2 or sa.state.name != 'ESTABLISHED':
+        ck.count('later.first_rekey_failed')
+        return
+    ck.count('later.runs')
+    if variant.startswith('rekey2-'):
+        c2 = sa.child_sas[-1]
+        sim.expire(a, bytes(c2.inbound_spi), False, daddr=S.A4)
+        ts = {'rekey2-honest': None, 'rekey2-wider': (sel('10.0.0.0', '10.255.255.255', 0, 65535, 0), wide_r),
+              'rekey2-narrower': (sel('10.1.5.0', '10.1.5.255', 0, 65535, 0), sel('10.2.5.0', '10.2.5.255', 0, 65535, 0)),
+              'rekey2-disjoint': (sel('10.9.0.0', '10.9.0.255', 0, 65535, 0), sel('10.8.0.0', '10.8.0.255', 0, 65535, 0))}[variant]
+        inst, _ = answer_child(ts)
+        # a responder that NARROWS on a rekey stays inside what was offered: the property only forbids installing a widened answer, so either outcome is accepted (counted)
+        ok = True if variant == 'rekey2-honest' else None if variant == 'rekey2-narrower' else False
+        offered = (wide_i, wide_r)
+    else:
+        sim.acquire(a, 0, protect_i=1, saddr='10.1.5.7', daddr='10.2.5.9', dport=443)
+        if not sim.net:
+            ck.count('later.no_request_for_the_narrow_entry')
+            return
+        nar_i, nar_r = sel('10.1.5.0', '10.1.5.255', 0, 65535, 6), sel('10.2.5.0', '10.2.5.255', 443, 443, 6)
+        ts = {'honest': None, 'selectors-of-the-earlier-wide-sa': (wide_i, wide_r), 'whole-ipv4': (sel('0.0.0.0', '255.255.255.255', 0, 65535, 0),) * 2,
+              'tsi-wide-only': (wide_i, nar_r), 'tsr-wide-only': (nar_i, wide_r)}[variant]
+        inst, offered = answer_child(ts)
+        ok = variant == 'honest'
+    ck.seen('later.variants', variant)
+    ck.nontrivial(('later-generation', variant, inst))
+    if ok and inst != 2:
+        ck.violation(f'honest-answer-on-a-later-exchange-not-installed:{variant}', {'newsa': inst}, sim.case)
+    if ok is False and inst:
+        ck.violation(f'initiator-installed-selectors-it-did-not-offer-on-a-later-exchange:{variant}', {'newsa': inst, 'answered': ts}, sim.case)
+    if ok is False and not inst:
+        ck.count('later.refused')
+    if ok is None:
+        ck.count('later.narrowed_rekey_answer_' + ('installed' if inst else 'refused'))
 
 
 def rekey_case(ck, rng, i):
@@ -536,6 +631,9 @@ def run(ck):
     for i in range(40 if not thorough else 4000):
         if ck.mine(i):
             rekey_case(ck, ck.rng('rekey', i), i)
+    for i in range(36 if not thorough else 1800):
+        if ck.mine(i):
+            later_generation_case(ck, ck.rng('later', i), i)
     for i in range(4 * len(REKEY_VARIANTS) if not thorough else 200 * len(REKEY_VARIANTS)):
         if ck.mine(i):
             crafted_rekey_case(ck, ck.rng('crafted-rekey', i), i)
@@ -552,5 +650,7 @@ def verdict(ck):
     ck.floor('initiator response variants', len(ck.sets['initiator.labels']), 30)
     ck.floor('crafted rekey requests judged', c['crafted_rekey.installed'] + c['crafted_rekey.refused'], 40)
     ck.floor('crafted rekey requests with equal selectors installed', c['crafted_rekey.equal'], 4)
+    ck.floor('initiator checks on later exchanges (after a completed rekey)', c['later.runs'], 30)
+    ck.floor('later-exchange variants', len(ck.sets['later.variants']), 9)
     ck.floor('rekeys with equal selectors', c['rekey.selectors_equal'], 40)
     return {'exhaustive': True}
